@@ -3,6 +3,7 @@
 mod util;
 mod backoff;
 mod childrun;
+mod codec;
 mod wire;
 
 use util::{Cfg, Tier};
@@ -41,6 +42,7 @@ fn main() {
     match suite.as_str() {
         "backoff" => backoff::run(&cfg),
         "wire" => wire::run(&cfg),
+        "codec" => codec::run(&cfg),
         other => { eprintln!("unknown suite {other}"); std::process::exit(2); }
     }
 }
@@ -49,6 +51,6 @@ fn main() {
 pub fn dispatch_child(op: &str, input: &[u8]) -> String {
     match op {
         "bdec" => wire::bdec_value(input),
-        other => format!("unknown-op {other}"),
+        other => codec::child(other, input).unwrap_or_else(|| format!("unknown-op {other}")),
     }
 }
